@@ -101,10 +101,24 @@ Theorem C10_lookup_product_refines_spec : forall tbl vips dflt host vip,
 Proof. exact lookup_product_natural. Qed.
 Print Assumptions C10_lookup_product_refines_spec.
 
-(* The executable property evaluated by the harness holds of the model on every well-formed input. *)
-Theorem C10_prop_of_model : forall i, run_C10 i <> VErr 0 -> prop_C10 i (run_C10 i) = true.
+(* CENTRAL THEOREM.  The executable property the harness evaluates on the implementation's observations holds of the
+   model on every well-formed input (wf_C10 = the input decodes: pre-Update queries + a list of reload stages, each
+   with host table, VIP table, default product and queries; there is no known-finding class, kf_C10 = 0).  Every
+   stage is answered from its own tables (HostTable.Update replaces all state); LookupProduct is the host-table
+   part of the chain and LookupProductByVip its VIP part. *)
+Theorem C10_prop_of_model : forall i, wf_C10 i = true -> kf_C10 i = 0 -> prop_C10 i (run_C10 i) = true.
 Proof. exact prop_C10_of_model. Qed.
 Print Assumptions C10_prop_of_model.
+(* LookupProduct(host) on natural labels *)
+Theorem C10_find_host_route_natural : forall tbl host, find_host_route tbl host = spec_host tbl host.
+Proof. exact find_host_route_natural. Qed.
+Print Assumptions C10_find_host_route_natural.
+(* a corpus case (corpus/C10/examples.case, "wf-example") is well-formed *)
+Example C10_wf_example :
+  wf_C10 (VL [VL [VL [VB [99;111;109]; VB []]];
+              VL [VL [VL [VL [VB [42;46;99;111;109]; VB [116]; VB [112]]]; VL []; VB [100]; VL [VL [VB [97;46;99;111;109]; VB []]]];
+                  VL [VL []; VL []; VB []; VL [VL [VB [97;46;99;111;109]; VB []]]]]]) = true.
+Proof. exact eq_refl. Qed.
 
 (* buildHostRoute ranges over a Go map, i.e. inserts in an unspecified order.  When the configured hosts are pairwise
    distinct after normalisation (lower case, one trailing dot dropped: distinct trie paths), every lookup gives the
